@@ -53,6 +53,9 @@ def paired(an, fn, node, owner_ap, polarity, depth=0):
                    stop=lambda n: n in marks, from_successors=True)
     if p is None:
         return True, "followed by %s on %s on every path to the normal exit of %s" % (polarity, ap_str(owner_ap), fn.qualname)
+    if marks and must_pass(an, fn, node, lambda x: x in marks) is None:
+        # the other order: the mark is set on every path *to* the store (what happens if the store then fails is (b)/(c))
+        return True, "preceded by %s on %s on every path to the store in %s" % (polarity, ap_str(owner_ap), fn.qualname)
     if depth >= 3:
         return False, "no %s follows in %s and the call chain is too deep" % (polarity, fn.qualname)
     callers = an.callers(fn)
@@ -123,8 +126,16 @@ def check(ctx):
                     continue
                 stores = {m for m in g.nodes if any(x[0] == "W_DATA" and x[1] == ev[1] for x in state.direct(fn, m))}
                 p = must_pass(an, fn, n, lambda x: x in stores)
+                how = "the default mark is set only after the value was stored"
+                if p is not None and stores:
+                    # or the store follows unconditionally, with nothing in between that could leave the mark alone
+                    oracle_ = lambda x: an.node_may_raise(fn, x)
+                    skip = g.path(n, lambda x: x is g.exit, may_raise=lambda x: False, stop=lambda x: x in stores, from_successors=True)
+                    leak = g.path(n, lambda x: x is g.raise_exit, may_raise=oracle_, stop=lambda x: x in stores, from_successors=True)
+                    if skip is None and leak is None:
+                        p, how = None, "the value is stored right after the mark on every path (nothing in between can fail)"
                 ctx.ob("mark-needs-store", fn, n.ast, p is None,
-                       "the default mark is set only after the value was stored" if p is None else
+                       how if p is None else
                        "a key is marked as holding its default without a value being stored", node=n)
 
     # ---------------------------------------------------------------- (c)
@@ -291,6 +302,18 @@ def check(ctx):
             and isinstance(v.operand.ops[0], ast.In) and isinstance(v.operand.comparators[0], ast.Attribute) \
             and v.operand.comparators[0].attr == "_default_value_keys"
         ok = ok and (good or neg)
+    cparam = ivd.positional_params[0]
+    for r in rets:
+        for x in ast.walk(r.ast.value) if r.ast.value is not None else []:
+            if isinstance(x, ast.Attribute) and x.attr == "_default_value_keys":
+                srcs = value_sources(ivd, x.value, r)
+                resolved = any(k == "expr" and isinstance(pl, ast.Subscript) and isinstance(pl.value, ast.Name)
+                               and any(k2 == "param" and p2 == cparam for k2, p2 in value_sources(ivd, pl.value, None) or [("param", pl.value.id)] if True)
+                               for k, pl in srcs)
+                ctx.ob("defined.owner-resolved", ivd, x, resolved,
+                       "for a dotted key the marks consulted are those of the sub-configuration the path leads to" if resolved else
+                       "is_value_defined consults the default marks of the configuration it was given, not of the sub-configuration "
+                       "a dotted key leads to", node=r)
     ctx.ob("defined.is-complement", ivd, "is_value_defined", ok,
            "user-defined == key not in the default-mark set" if ok else
            "is_value_defined is no longer the complement of the default-mark set")
